@@ -59,7 +59,7 @@ pub fn atom_of_trait_ref(tr: &TraitRef<ChalkIr>, env: &[Bind]) -> Option<Sexp> {
     Some(Sexp::List(v))
 }
 
-fn atom_of_wc(q: &QuantifiedWhereClause<ChalkIr>, env: &[Bind]) -> Option<Sexp> {
+pub fn atom_of_wc(q: &QuantifiedWhereClause<ChalkIr>, env: &[Bind]) -> Option<Sexp> {
     if q.binders.len(I) != 0 {
         return None;
     }
@@ -236,4 +236,74 @@ pub fn answer_to_horn(r: &Option<chalk_solve::Solution<ChalkIr>>) -> Option<Sexp
         Some(Solution::Ambig(Guidance::Definite(c))) => tagged("definite", vec![subst(&c.value)?]),
         Some(Solution::Ambig(_)) => atom("ambig"),
     })
+}
+
+/// C05: the program *data* for `AutoTraits.lean` (`autoProgram`): ADTs with their field types,
+/// explicit positive impls as clauses, (auto trait, constructor) pairs with an explicit or negative
+/// impl, auto and coinductive trait names.  None when outside the fragment.
+pub fn program_to_auto_data(p: &Program) -> Option<Sexp> {
+    let mut adts = vec![];
+    for (id, d) in &p.adt_data {
+        if d.flags.phantom_data || !d.binders.skip_binders().where_clauses.is_empty() {
+            return None;
+        }
+        if d.binders.binders.iter(I).any(|k| !matches!(k, VariableKind::Ty(TyVariableKind::General))) {
+            return None;
+        }
+        let env = [Bind::Vars];
+        let mut fields = vec![];
+        for v in &d.binders.skip_binders().variants {
+            for f in &v.fields {
+                fields.push(tm_of_ty(f, &env)?);
+            }
+        }
+        adts.push(list(vec![atom(&format!("adt{}", id.0.index)), nat(d.binders.len(I)), list(fields)]));
+    }
+    let mut autos = vec![];
+    let mut cos = vec![];
+    for (id, t) in &p.trait_data {
+        let f = &t.flags;
+        if f.marker || f.fundamental || t.well_known.is_some() || !t.associated_ty_ids.is_empty() {
+            return None;
+        }
+        if !t.binders.skip_binders().where_clauses.is_empty() {
+            return None;
+        }
+        if f.auto {
+            autos.push(atom(&format!("tr{}", id.0.index)));
+        } else if f.coinductive {
+            cos.push(atom(&format!("tr{}", id.0.index)));
+        }
+    }
+    let mut impls = vec![];
+    let mut provided = vec![];
+    for (_, d) in &p.impl_data {
+        if d.impl_type != ImplType::Local || !d.associated_ty_value_ids.is_empty() {
+            return None;
+        }
+        if d.binders.binders.iter(I).any(|k| !matches!(k, VariableKind::Ty(TyVariableKind::General))) {
+            return None;
+        }
+        let b = d.binders.skip_binders();
+        let tr_name = format!("tr{}", b.trait_ref.trait_id.0.index);
+        let is_auto = p.trait_data[&b.trait_ref.trait_id].flags.auto;
+        if is_auto {
+            match b.trait_ref.self_type_parameter(I).kind(I) {
+                TyKind::Adt(id, _) => provided.push(list(vec![atom(&tr_name), atom(&format!("adt{}", id.0.index))])),
+                TyKind::Scalar(sc) => provided.push(list(vec![atom(&tr_name), atom(&format!("scalar{}", scalar_code(*sc)))])),
+                _ => return None,
+            }
+        }
+        if d.polarity == Polarity::Positive {
+            let env = [Bind::Vars];
+            let head = atom_of_trait_ref(&b.trait_ref, &env)?;
+            let body: Option<Vec<Sexp>> = b.where_clauses.iter().map(|w| atom_of_wc(w, &env)).collect();
+            impls.push(tagged("clause", vec![head, list(body?)]));
+        }
+    }
+    if !p.custom_clauses.is_empty() || !p.opaque_ty_data.is_empty() || !p.associated_ty_data.is_empty() {
+        return None;
+    }
+    let leaves = list(vec![atom(&format!("scalar{}", scalar_code(Scalar::Uint(UintTy::U32)))), atom(&format!("scalar{}", scalar_code(Scalar::Bool)))]);
+    Some(tagged("auto-data", vec![list(adts), leaves, list(vec![]), list(impls), list(provided), list(autos), list(cos)]))
 }
